@@ -305,6 +305,8 @@ pub fn generate(g: &mut Gen, thorough: bool) {
             .collect();
         case(g, "default", def, "F", "geo", 5e-6, &pts, "tmerc-across-the-antimeridian", true);
     }
+    // macros whose body starts with a stack step, as steps of pipelines run forward and backward
+    super::lang::stack_led_macros(g, thorough);
     // inverse first, from points of the plane: the same points come back, also where the longitudes in between lie
     // beyond the antimeridian as counted from the central meridian
     for (def, ex, ey) in [
